@@ -134,4 +134,44 @@ theorem dropFields_eq_visits (m : Mem) : ∀ (ts : Tys) (i : Nat) (b : LayoutBui
       · have hd' : needsDrop t = false := by simpa using hd
         simp [dropFields, dropRecordLoop, hl, hd', dropFields_eq_visits m ts (i + 1) (b.add l).1 a]
 
+/-- `Lowerer::location` is compositional: the location of `p ++ q` is the
+    location of `q` inside the component `p` addresses, offsets added -/
+theorem locate_append : ∀ (p q : List Proj) (t : Ty) (o : Nat),
+    locate t (p ++ q) o =
+      match locate t p o with
+      | .panic => .panic
+      | .ok none => .ok none
+      | .ok (some (op, tp)) => locate tp q op
+  | [], q, t, o => by simp [locate]
+  | s :: p, q, t, o => by
+    cases t with
+    | record fs =>
+      cases s with
+      | field n =>
+        simp only [List.cons_append, locate]
+        cases h : getField fs n LayoutBuilder.new with
+        | panic => simp
+        | ok r =>
+          obtain ⟨o1, t1⟩ := r
+          simp only []
+          exact locate_append p q t1 (o + o1)
+      | variantField v n => simp [locate]
+    | enum vs =>
+      cases s with
+      | field n => simp [locate]
+      | variantField v n =>
+        simp only [List.cons_append, locate]
+        cases h : variantField vs v n with
+        | panic => simp
+        | ok r =>
+          cases r with
+          | none => simp
+          | some r =>
+            obtain ⟨o1, t1⟩ := r
+            simp only []
+            exact locate_append p q t1 (o + o1)
+    | unit => simp [locate]
+    | never => simp [locate]
+    | leaf k s' a => simp [locate]
+
 end RotoV.Layout
